@@ -43,8 +43,9 @@ def ok (a b : Access) : Bool :=
 def raceFree (t : List Access) : Bool :=
   t.all (fun a => t.all (fun b => a.loc != b.loc || ok a b))
 
-/-- locations with an unsynchronised conflict today (open known findings) -/
-def knownRacy : List String := ["types.ZodLazyInternals.innerType"]
+/-- locations with an unsynchronised conflict today (open known findings): none since the lazy cache became an
+    atomic.Pointer written inside once.Do -/
+def knownRacy : List String := []
 
 /-- the cells of the table that falsify `raceFree`: pairs of accesses to one location that are not `ok`
     (each unordered pair once), as `(loc, fn₁, fn₂)` -/
